@@ -14,14 +14,34 @@ use worterbuch_common::PStateEvent;
 pub struct Pair {
     pub pattern: String,
     pub key: String,
+    /// patterns other clients have subscribed to before the pattern under test is used (a leading
+    /// '-' = subscribed and unsubscribed again): the relation must not depend on them
+    #[serde(default)]
+    pub bystanders: Vec<String>,
 }
 
 const DECOY: &str = "d/e/c/o/y/!";
 
-async fn observe(pattern: &str, key: &str) -> Result<(Option<(bool, bool, bool)>, Option<(bool, bool, bool)>), Failure> {
+async fn observe(pattern: &str, key: &str, bystanders: &[String]) -> Result<(Option<(bool, bool, bool)>, Option<(bool, bool, bool)>), Failure> {
     // returns (for key, for decoy): (in pget, notified, removed by pdelete); None = all three rejected
     let me = uuid(1);
     let mut wb = Worterbuch::with_config(base_config_cached());
+    // subscriptions of other clients (kept alive until the end, or ended again at once)
+    let mut others = vec![];
+    for (i, b) in bystanders.iter().enumerate() {
+        let (p, gone) = match b.strip_prefix('-') {
+            Some(p) => (p, true),
+            None => (b.as_str(), false),
+        };
+        let id = uuid(50 + i as u128);
+        if let Ok(sub) = wb.psubscribe(id, 1, p.to_owned(), false, true).await {
+            if gone {
+                wb.unsubscribe(id, 1).await.map_err(|e| Failure::new("c04.setup", "unsubscribe accepted", err_code(&e)))?;
+            } else {
+                others.push(sub);
+            }
+        }
+    }
     wb.set(key.to_owned(), json!(1), uuid(INTERNAL), false)
         .await
         .map_err(|e| Failure::new("c04.setup", "set accepted", err_code(&e)))?;
@@ -65,6 +85,7 @@ async fn observe(pattern: &str, key: &str) -> Result<(Option<(bool, bool, bool)>
     let del = wb.pdelete(pattern.to_owned(), uuid(INTERNAL)).await;
     let k_left = wb.get(&key.to_owned()).is_ok();
     let d_left = wb.get(&DECOY.to_owned()).is_ok();
+    drop(others);
 
     match (sub_ok, &got, &del) {
         (false, Err(_), Err(_)) => {
@@ -104,7 +125,7 @@ fn check_pair(pair: &Pair, kfs: &KnownFindings) -> Result<CaseReport, Failure> {
     let key = split(&pair.key);
     let decoy = split(DECOY);
     let valid = pattern_valid(&pat);
-    let (rk, rd) = block_on(observe(&pair.pattern, &pair.key))?;
+    let (rk, rd) = block_on(observe(&pair.pattern, &pair.key, &pair.bystanders))?;
     let mut rep = CaseReport {
         nontrivial: has_wildcard(&pat),
         ..Default::default()
@@ -191,52 +212,58 @@ fn rand_seg() -> BoxedStrategy<String> {
     .boxed()
 }
 
+/// a pattern derived from a key: segments replaced by `?` or a foreign segment, truncated + `#`,
+/// one level more / less, `#` inserted somewhere
+fn derive(key: &[String], muts: &[u8], cut: usize, tail: u8, other: &str) -> String {
+    let mut pat: Vec<String> = key
+        .iter()
+        .zip(muts.iter())
+        .map(|(s, m)| match m {
+            0..=3 => "?".to_owned(),
+            4 => other.to_owned(),
+            _ => s.clone(),
+        })
+        .collect();
+    match tail {
+        0..=3 => {
+            pat.truncate(cut.min(pat.len()));
+            pat.push("#".to_owned());
+        }
+        4 => {
+            pat.push("?".to_owned());
+        }
+        5 => {
+            if pat.len() > 1 {
+                pat.pop();
+            }
+        }
+        6 => {
+            let at = cut.min(pat.len());
+            pat.insert(at, "#".to_owned());
+        }
+        _ => {}
+    }
+    let pattern = pat.join("/");
+    if pattern.is_empty() { "?".to_owned() } else { pattern }
+}
+
 fn rand_pair() -> BoxedStrategy<Pair> {
-    (
-        proptest::collection::vec(rand_seg(), 1..=8),
-        proptest::collection::vec(0..12u8, 8),
-        0..9usize,
-        0..10u8,
-        rand_seg(),
-    )
-        .prop_map(|(mut key, muts, cut, tail, other)| {
+    let shape = || (proptest::collection::vec(0..12u8, 8), 0..9usize, 0..10u8, rand_seg());
+    (proptest::collection::vec(rand_seg(), 1..=8), shape(), proptest::collection::vec((shape(), any::<bool>()), 0..=2))
+        .prop_map(|(mut key, (muts, cut, tail, other), by)| {
             if key.len() == 1 && key[0].is_empty() {
                 // the empty string is not a key
                 key[0] = "a".to_owned();
             }
-            let mut pat: Vec<String> = key
-                .iter()
-                .zip(muts.iter())
-                .map(|(s, m)| match m {
-                    0..=3 => "?".to_owned(),
-                    4 => other.clone(),
-                    _ => s.clone(),
+            let pattern = derive(&key, &muts, cut, tail, &other);
+            let bystanders = by
+                .into_iter()
+                .map(|((muts, cut, tail, other), gone)| {
+                    let p = derive(&key, &muts, cut, tail, &other);
+                    if gone { format!("-{p}") } else { p }
                 })
                 .collect();
-            match tail {
-                0..=3 => {
-                    pat.truncate(cut.min(pat.len()));
-                    pat.push("#".to_owned());
-                }
-                4 => {
-                    pat.push("?".to_owned());
-                }
-                5 => {
-                    if pat.len() > 1 {
-                        pat.pop();
-                    }
-                }
-                6 => {
-                    let at = cut.min(pat.len());
-                    pat.insert(at, "#".to_owned());
-                }
-                _ => {}
-            }
-            let mut pattern = pat.join("/");
-            if pattern.is_empty() {
-                pattern = "?".to_owned();
-            }
-            Pair { pattern, key: key.join("/") }
+            Pair { pattern, key: key.join("/"), bystanders }
         })
         .boxed()
 }
@@ -259,7 +286,7 @@ pub fn run(cfg: &RunCfg) -> i32 {
     let mut pairs = Vec::with_capacity(patterns.len() * keys.len());
     for p in &patterns {
         for k in &keys {
-            pairs.push(Pair { pattern: p.clone(), key: k.clone() });
+            pairs.push(Pair { pattern: p.clone(), key: k.clone(), bystanders: vec![] });
         }
     }
     let (agg, v) = run_enumerated(cfg, &pairs, |p| check_pair(p, &kfs));
@@ -277,11 +304,36 @@ pub fn run(cfg: &RunCfg) -> i32 {
         check.violate("exhaustive", &v.case, v.failure);
     }
     if !check.has_violation() {
+        // the same relation while another client's subscription coexists in the subscriber tree
+        let small: Vec<String> = all_strings(&["a", "?", "#"], 1, 3).into_iter().filter(|p| pattern_valid(&parse_pattern(p))).collect();
+        let small_keys: Vec<String> = all_strings(&["a", "b"], 1, 3);
+        let mut pairs = vec![];
+        for p in &small {
+            for b in &small {
+                for k in &small_keys {
+                    pairs.push(Pair { pattern: p.clone(), key: k.clone(), bystanders: vec![b.clone()] });
+                    pairs.push(Pair { pattern: p.clone(), key: k.clone(), bystanders: vec![format!("-{b}")] });
+                }
+            }
+        }
+        let n_pairs = pairs.len();
+        let (agg, v) = run_enumerated(cfg, &pairs, |p| check_pair(p, &kfs));
+        check.add_part(
+            "coexisting",
+            &format!("{n_pairs} cases: all valid patterns over {{a,?,#}} of depth 1..=3 x every such pattern as the subscription of another client (alive, or already ended again) x all keys over {{a,b}} of depth 1..=3; same oracle; distinct = case"),
+            true,
+            agg,
+        );
+        if let Some(v) = v {
+            check.violate("coexisting", &v.case, v.failure);
+        }
+    }
+    if !check.has_violation() {
         let n = cfg.cases(100_000, 2_000_000);
         let (agg, v) = run_prop(cfg, "random", n, rand_pair, |p: &Pair| check_pair(p, &kfs));
         check.add_part(
             "random",
-            "random keys of depth 1..=8 over unicode/long/empty/$SYS segments and patterns derived from the key (segments replaced by ?, truncated + #, # inserted at a random position, one level more/less); same oracle",
+            "random keys of depth 1..=8 over unicode/long/empty/$SYS segments and patterns derived from the key (segments replaced by ?, truncated + #, # inserted at a random position, one level more/less), with 0-2 further patterns derived the same way subscribed by other clients beforehand (alive or ended again); same oracle",
             false,
             agg,
         );
